@@ -109,7 +109,11 @@ def write_replay(root, prop, unit, result, fresh, tu, wd):
     d = os.path.join(root, "replay", prop)
     os.makedirs(d, exist_ok=True)
     ob = fresh[0][0]
-    path = os.path.join(d, re.sub(r"[^A-Za-z0-9_.]+", "_", unit.label + "." + ob) + ".json")
+    fn = re.sub(r"[^A-Za-z0-9_.]+", "_", unit.label + "." + ob)
+    if len(fn) > 120:
+        import hashlib
+        fn = fn[:100] + "_" + hashlib.sha1(fn.encode()).hexdigest()[:12]
+    path = os.path.join(d, fn + ".json")
     rec = dict(property=prop, unit=unit.label, back_end=unit.back_end, target=getattr(unit, "target", None),
                refuted=[list(f) for f in fresh], time=time.strftime("%Y-%m-%dT%H:%M:%SZ", time.gmtime()))
     found = False
@@ -125,6 +129,12 @@ def write_replay(root, prop, unit, result, fresh, tu, wd):
             cx = result.get("counterexample")
             if cx:
                 rec["counterexample"] = cx
+                if unit.back_end == "GROUP" and "op" in cx:
+                    import wkd_native
+                    mod = wkd_native if not str(cx["op"]).startswith("lq:") else __import__("lq_native")
+                    ok, text = mod.replay(cx, wd, tag=unit.name()[:40] + "_native")
+                    cx["confirmed_on_real_code"] = bool(ok)
+                    rec["native_replay_output"] = text
                 found = bool(cx.get("confirmed_on_real_code"))
     except Exception as e:      # replay trouble never hides the refutation
         rec["replay_error"] = repr(e)
